@@ -15,6 +15,12 @@
 //	            reference acceptance model refage.StreamDecrypt, an accepted
 //	            plaintext must equal the model's, and no two different payloads
 //	            under one key may be accepted with the same plaintext.
+//
+// Every edited file reaches age.Decrypt through a source kind (plain, data
+// returned together with io.EOF, caller-supplied bufio.Reader, one byte at a
+// time) and the plaintext reader is drained in a consumption mode (Read loop,
+// io.Copy, io.ReadAll, Read then io.Copy); trailing-data classes go through
+// the full product, everything else through a hashed combination (oracle.go).
 package main
 
 import (
@@ -24,7 +30,6 @@ import (
 	"sort"
 	"time"
 
-	"filippo.io/age"
 	"filippo.io/age/zverif/ax"
 	"filippo.io/age/zverif/keys"
 	"filippo.io/age/zverif/mon"
@@ -122,8 +127,11 @@ func (m *monitor) refBase(n int) *base {
 // sequences (needModel) additionally need the model to agree.
 func (m *monitor) checkUnmodified(b *base, modelPT []byte, modelOK bool) *base {
 	e := &edited{base: b, class: "unmodified", edit: "identity", segs: [][]byte{b.file}}
-	m.judgeB(e, modelPT, modelOK)
-	m.r.Distinct(b.name + "|unmodified")
+	for _, via := range e.kinds() {
+		m.judgeB(e.with(via), modelPT, modelOK)
+		m.r.Distinct(b.name + "|unmodified@" + via)
+	}
+	e = e.with("filled,read")
 	var o *outcome
 	m.r.Guard(e.key("panic"), func() { o = m.decrypt(e, b.pt) })
 	readerOK := o != nil && o.clean() && o.mismatch < 0 && o.released == len(b.pt)
@@ -162,6 +170,7 @@ func main() {
 	}
 
 	m := &monitor{r: r, id: keys.P("X1").Identity}
+	pairDelivery = r.Thorough()
 	var jobs []job
 
 	t0 := time.Now()
@@ -202,5 +211,3 @@ type job struct {
 	cost int // rough relative cost, for scheduling only
 	f    func()
 }
-
-var _ = age.Decrypt
